@@ -124,9 +124,126 @@ func (r lruRep) entryFields(av AVal) (val, key string, ok bool) {
 }
 
 type lruEnv struct {
-	w     *WalkEnv
-	delta int
-	elemN int
+	w            *WalkEnv
+	delta        int
+	elemN        int
+	nonNilParams map[string]bool
+}
+
+// foundAlreadyAtEnd: on this path the element found under the key was compared with the list's Front()
+// (Back()) element and found to be it: "Front"/"Back", else "".
+func foundAlreadyAtEnd(t Trace) string {
+	for _, end := range []string{"front", "back"} {
+		ek := keyOf(Tok{Dom: "elem", Name: end})
+		for k, v := range t.PC {
+			if v == 1 && strings.HasPrefix(k, "eq(") && strings.Contains(k, ek) && strings.Contains(k, "]") {
+				return strings.ToUpper(end[:1]) + end[1:]
+			}
+		}
+	}
+	return ""
+}
+
+// elemParamsNeverNil: names of *list.Element parameters of unexported methods of the cache type that
+// receive, at every static call site in the repository, an element that cannot be nil there: the value of a
+// comma-ok map lookup on the side where it was found present, the result of PushFront/PushBack, or
+// Back()/Front() of the list behind an insertion in the same function. (A name that fails at one site,
+// or is used for two helpers of which one fails, is left out.)
+func elemParamsNeverNil(p *Prog) map[string]bool {
+	named, _ := cacheType(p)
+	out := map[string]bool{}
+	if named == nil {
+		return out
+	}
+	bad := map[string]bool{}
+	nonNilArg := func(v ssa.Value, at *ssa.BasicBlock) bool {
+		switch x := v.(type) {
+		case *ssa.Extract:
+			lk, ok := x.Tuple.(*ssa.Lookup)
+			if !ok || !lk.CommaOk || x.Index != 0 {
+				return false
+			}
+			// `at` is dominated by the true edge of the lookup's ok flag
+			for _, r := range refs(lk) {
+				okx, isEx := r.(*ssa.Extract)
+				if !isEx || okx.Index != 1 {
+					continue
+				}
+				for _, r2 := range refs(okx) {
+					iff, isIf := r2.(*ssa.If)
+					if !isIf {
+						continue
+					}
+					t := iff.Block().Succs[0]
+					if len(t.Preds) == 1 && t.Dominates(at) {
+						return true
+					}
+					// `if !ok { return }` form: everything dominated by the false... the ok-true side is Succs[0] of
+					// If(ok); for If(!ok) the condition is a UnOp handled below
+				}
+				for _, r2 := range refs(okx) {
+					if u, isU := r2.(*ssa.UnOp); isU && u.Op == token.NOT {
+						for _, r3 := range refs(u) {
+							if iff, isIf := r3.(*ssa.If); isIf {
+								f := iff.Block().Succs[1]
+								if len(f.Preds) == 1 && f.Dominates(at) {
+									return true
+								}
+							}
+						}
+					}
+				}
+			}
+			return false
+		case *ssa.Call:
+			switch calleeName(&x.Call) {
+			case "(*container/list.List).PushFront", "(*container/list.List).PushBack":
+				return true
+			case "(*container/list.List).Back", "(*container/list.List).Front":
+				// behind an insertion in the same function
+				for _, b := range x.Parent().Blocks {
+					for _, ins := range b.Instrs {
+						if c2, ok := ins.(*ssa.Call); ok {
+							if nm := calleeName(&c2.Call); nm == "(*container/list.List).PushFront" || nm == "(*container/list.List).PushBack" {
+								if b.Dominates(x.Block()) {
+									return true
+								}
+							}
+						}
+					}
+				}
+			}
+		}
+		return false
+	}
+	for _, fn := range p.Funcs {
+		for _, b := range fn.Blocks {
+			for _, ins := range b.Instrs {
+				call, ok := ins.(ssa.CallInstruction)
+				if !ok {
+					continue
+				}
+				callee := staticCallee(call.Common())
+				if callee == nil || recvNamed(callee) != named || callee.Object() == nil || callee.Object().Exported() {
+					continue
+				}
+				for i, prm := range callee.Params {
+					if !isNamed(derefType(prm.Type()), "container/list", "Element") || i >= len(call.Common().Args) {
+						continue
+					}
+					if nonNilArg(call.Common().Args[i], b) {
+						out[prm.Name()] = true
+					} else {
+						bad[prm.Name()] = true
+					}
+				}
+			}
+		}
+	}
+	for k := range bad {
+		delete(out, k)
+	}
+	return out
 }
 
 func newLRUEnv(p *Prog) *lruEnv {
@@ -138,6 +255,36 @@ func newLRUEnv(p *Prog) *lruEnv {
 	in.ResetHook = func() {
 		prev()
 		le.delta, le.elemN = 0, 0
+	}
+	// list elements that cannot be nil: what PushFront/PushBack returned; Back()/Front() once this path has
+	// inserted (the list is not empty); the value of a comma-ok lookup in a map of elements that was found
+	// present (C09-PAIR: the map only ever receives elements the list handed out)
+	in.NonNil = func(in *Interp, v AVal) bool {
+		switch x := v.(type) {
+		case Tok:
+			if x.Dom != "elem" {
+				return false
+			}
+			if strings.HasPrefix(x.Name, "new") {
+				return true
+			}
+			return le.delta > 0
+		case Sym:
+			if x.T == nil || !isNamed(derefType(x.T), "container/list", "Element") {
+				return false
+			}
+			if le.nonNilParams == nil {
+				le.nonNilParams = elemParamsNeverNil(p)
+			}
+			if le.nonNilParams[x.K] {
+				return true // an element parameter of a private helper: every call site hands over a non-nil element
+			}
+			if !strings.HasSuffix(x.K, "]") {
+				return false
+			}
+			return in.pc["has("+x.K+")"] == 1
+		}
+		return false
 	}
 	lm := func(name string, f func(in *Interp, site ssa.Instruction, a []AVal) AVal) {
 		in.Models["(*container/list.List)."+name] = func(in *Interp, site ssa.Instruction, cc *ssa.CallCommon, a []AVal) (AVal, bool) {
@@ -263,9 +410,16 @@ func runC09(c *Ctx) {
 					hit = true
 				}
 			}
+			nTouch := len(touches)
+			if hit && nTouch == 0 {
+				if end := foundAlreadyAtEnd(t); end != "" {
+					nTouch = 1
+					ends["touch"][end] = true
+				}
+			}
 			if hit {
 				hitPaths++
-				if len(touches) != 1 {
+				if nTouch != 1 {
 					endsBad = append(endsBad, "Store on an existing key does not move the entry to the recent end")
 				}
 				if !valueAssigned {
@@ -363,6 +517,12 @@ func runC09(c *Ctx) {
 				}
 			}
 			rt, _ := t.Ret.(Tup)
+			if hit && touches == 0 {
+				if end := foundAlreadyAtEnd(t); end != "" {
+					touches = 1 // `if l.list.Front() != node { MoveToFront(node) }`: the element found IS the recent end
+					ends["touch"][end] = true
+				}
+			}
 			if hit {
 				hits++
 				if touches != 1 {
@@ -1293,15 +1453,80 @@ func runC09Live(c *Ctx, named *types.Named) {
 						if st, ok := r.(*ssa.Store); ok && st.Addr == al {
 							trace(st.Val, st.Pos(), d+1)
 						}
+						// the cell is captured by a function literal (the body runs inside a lock wrapper's
+						// closure): what the literal stores into it
+						if mc, ok := r.(*ssa.MakeClosure); ok {
+							if cf, ok := mc.Fn.(*ssa.Function); ok {
+								for i, bnd := range mc.Bindings {
+									if bnd == ssa.Value(al) && i < len(cf.FreeVars) {
+										for _, r2 := range refs(cf.FreeVars[i]) {
+											if st, ok := r2.(*ssa.Store); ok && st.Addr == ssa.Value(cf.FreeVars[i]) {
+												trace(st.Val, st.Pos(), d+1)
+											}
+										}
+									}
+								}
+							}
+						}
 					}
 					return
+				}
+				// isKeyParam: Load's key parameter, directly or read back from the cell a function literal captured it in
+				isKeyParam := func(v ssa.Value) bool {
+					if len(ld.Params) < 2 {
+						return false
+					}
+					if v == ssa.Value(ld.Params[1]) {
+						return true
+					}
+					u, ok := v.(*ssa.UnOp)
+					if !ok || u.Op != token.MUL {
+						return false
+					}
+					fv, ok := u.X.(*ssa.FreeVar)
+					if !ok {
+						return false
+					}
+					cf := fv.Parent()
+					idx := -1
+					for i, f := range cf.FreeVars {
+						if f == fv {
+							idx = i
+						}
+					}
+					if idx < 0 || cf.Parent() != ld {
+						return false
+					}
+					for _, b := range ld.Blocks {
+						for _, ins := range b.Instrs {
+							mc, ok := ins.(*ssa.MakeClosure)
+							if !ok || mc.Fn != ssa.Value(cf) || idx >= len(mc.Bindings) {
+								continue
+							}
+							cell, ok := mc.Bindings[idx].(*ssa.Alloc)
+							if !ok {
+								return false
+							}
+							n := 0
+							for _, r := range refs(cell) {
+								if st, ok := r.(*ssa.Store); ok && st.Addr == ssa.Value(cell) {
+									n++
+									if st.Val != ssa.Value(ld.Params[1]) {
+										return false
+									}
+								}
+							}
+							return n == 1
+						}
+					}
+					return false
 				}
 				isFoundValue := func(fa *ssa.FieldAddr) bool {
 					if fieldAddrName(fa) != "Value" {
 						return false
 					}
 					if ex, ok := fa.X.(*ssa.Extract); ok {
-						if lk, ok := ex.Tuple.(*ssa.Lookup); ok && len(ld.Params) >= 2 && lk.Index == ld.Params[1] {
+						if lk, ok := ex.Tuple.(*ssa.Lookup); ok && isKeyParam(lk.Index) {
 							return true
 						}
 					}
